@@ -40,7 +40,8 @@ pub fn string_sweep(
         hi,
         cfgs.len()
     );
-    let sample_every = (total / 5).max(1);
+    let sample_every = (total / 4).max(1);
+    let next_sample = std::sync::atomic::AtomicU64::new(sample_every / 3);
     sweep(&full_name, total, describe, |idx, local| {
         let mut seq = Vec::with_capacity(hi as usize);
         let mut s = String::new();
@@ -52,15 +53,19 @@ pub fn string_sweep(
         }
         let input = if wrap.is_some() { format!("{pre}{s}{post}") } else { s };
         let mut out = Vec::new();
+        let mut any_nontrivial = false;
         for cfg in cfgs.iter() {
             local.evaluations += 1;
             let (v, nontrivial, h) = eval(cfg, &input);
             if nontrivial {
+                any_nontrivial = true;
                 local.observe(h ^ (cfg.ext.bits() as u64).wrapping_mul(0x9e3779b97f4a7c15) ^ ((cfg.conv as u64) << 60));
             }
             out.extend(v);
         }
-        if idx % sample_every == sample_every / 2 && c.samples_len() < 10 {
+        // samples: the first non-trivial case at or after each sampling point
+        if any_nontrivial && idx >= next_sample.load(std::sync::atomic::Ordering::Relaxed) && c.samples_len() < 12 {
+            next_sample.store(idx + sample_every, std::sync::atomic::Ordering::Relaxed);
             c.sample(json!({"input": input}));
         }
         out
@@ -164,6 +169,7 @@ pub fn run_c03(tier: Tier) {
         }
     }
     crate::corpus::c03_edits(tier);
+    size_boundary_sweep("C03 sizes", corners, c03_eval);
 }
 
 // ---------------------------------------------------------------------------
@@ -195,7 +201,8 @@ pub fn run_c04(tier: Tier) {
     }
     let comp = a_comp();
     string_sweep("C04 components", &comp, 0, tier.pick(3, 4), two.clone(), None, c04_check);
-    crate::corpus::edits_sweep("C04 corpus edits", tier, two, c04_check);
+    crate::corpus::edits_sweep("C04 corpus edits", tier, two.clone(), c04_check);
+    size_boundary_sweep("C04 sizes", two, c04_check);
 }
 
 pub fn run_c05(tier: Tier) {
@@ -222,10 +229,11 @@ pub fn run_c05(tier: Tier) {
         return;
     }
     // fence pairs with content before, between and after
-    let fence = Alphabet::new("A_fence", &["a", " ", "\n", "---\n", "---", "--- \n", "k: v\n", "@b{1}", ">> k: v\n", "-", "\r\n", "= s\n"]);
+    let fence = Alphabet::new("A_fence", &["a", " ", "\n", "---\n", "---", "--- \n", "k: v\n", "@b{1}", ">> k: v\n", "-", "\r\n", "= s\n", "---- t\n", "--- x: y\n"]);
     c.part(describe_alphabet(&fence));
     string_sweep("C05 fences", &fence, 0, tier.pick(5, 6), two.clone(), None, c05_check);
-    crate::corpus::edits_sweep("C05 corpus edits", tier, two, c05_check);
+    crate::corpus::edits_sweep("C05 corpus edits", tier, two.clone(), c05_check);
+    size_boundary_sweep("C05 sizes", two, c05_check);
 }
 
 pub fn run_c06(tier: Tier) {
@@ -313,4 +321,43 @@ pub fn run_c17_crlf(tier: Tier) {
         &[">> k: v\n", "= s\n", "step @a{1}\n", "> p\n", "\n", "---\n", "k: v\n", "-- c\n", "[- c\n", "-]", "text", " ", "@b c{1%kg}", "\r\n", "~{1%min}", "t: |\n", "  x\n", "@a", "b{}", "#p|q", "(n", "m)", "{1%fl", "oz}", "{two", "big}"],
     );
     string_sweep("C17 CRLF lines", &blocks, 0, tier.pick(4, 5), two, None, c17_crlf_check);
+}
+
+/// Inputs with one very long token (and many tokens), at the sizes where a
+/// narrow length or offset type would wrap: 2^8 and 2^16 +- 1.
+pub fn size_boundary_sweep(name: &str, cfgs: Arc<Vec<Config>>, eval: impl Fn(&Config, &str) -> (Vec<Violation>, bool, u64) + Sync) {
+    if ctx().has_violations() {
+        return;
+    }
+    const SIZES: [usize; 8] = [255, 256, 257, 65534, 65535, 65536, 65537, 70001];
+    const KINDS: usize = 8;
+    let build = |idx: u64| -> String {
+        let n = SIZES[(idx as usize / 2) % SIZES.len()];
+        let kind = (idx as usize / 2) / SIZES.len();
+        let prefix = if idx % 2 == 0 { "" } else { "é @x{1} " };
+        let long = match kind {
+            0 => "a".repeat(n),
+            1 => format!("a{}b", " ".repeat(n)),
+            2 => format!("-- {}", "c".repeat(n)),
+            3 => format!("[- {} -]", "c".repeat(n)),
+            4 => "1".repeat(n),
+            5 => "é".repeat(n / 2 + 1),
+            6 => format!("@w{{{}%g}}", "9".repeat(n.min(400))),
+            _ => "x ".repeat(n / 2),
+        };
+        format!("{prefix}{long}\nañade é @sal{{1%g}} 😀 y más #p ~{{5%min}}\n\n>> k: é\n= s é\n> p é\n")
+    };
+    let total = (KINDS * SIZES.len() * 2) as u64;
+    let cf = cfgs.clone();
+    sweep(&format!("{name}: one token of 255 .. 70001 bytes ({KINDS} token kinds x {} sizes x 2 prefixes) x {} configurations", SIZES.len(), cfgs.len()), total, move |i| json!({"input": build(i), "configs": cf.iter().map(|c| c.describe()).collect::<Vec<_>>()}), |idx, local| {
+        let input = build(idx);
+        let mut out = Vec::new();
+        for cfg in cfgs.iter() {
+            local.evaluations += 1;
+            let (v, _, _) = eval(cfg, &input);
+            out.extend(v);
+        }
+        local.nontrivial += 1;
+        out
+    });
 }
